@@ -38,6 +38,18 @@ type c21filter struct{ cur stringset.Set }
 
 func (f *c21filter) Run(addrs stringset.Set) stringset.Set { return f.cur.Copy() }
 
+// recording wrapper: what the ring was told by its Filter (the healthy oracle of the model)
+type c21recfilter struct {
+	inner healthcheck.Filter
+	last  stringset.Set
+}
+
+func (f *c21recfilter) Run(addrs stringset.Set) stringset.Set {
+	h := f.inner.Run(addrs)
+	f.last = h.Copy()
+	return h
+}
+
 type c21checker struct{ fail stringset.Set }
 
 func (c *c21checker) Check(ctx context.Context, addr string) error {
@@ -119,10 +131,15 @@ func c21ids(id map[string]int, s stringset.Set) []int {
 	return out
 }
 
-func c21order(id map[string]int, r *ring) []int {
+// c21order returns the scripted members in the order of the ring's hash nodes (the discovery
+// order the implementation used, an oracle for the model).  The MEMBER SET always comes from the
+// script: if the ring's nodes are not exactly the scripted members (a stale or missing hash)
+// the members are reported in ascending order and the model, which rebuilds, will disagree.
+func c21order(id map[string]int, r *ring, members []int) []int {
+	want := append([]int{}, members...)
+	sort.Ints(want)
 	if r.hash == nil {
-		// no hash yet: report the members (there are none unless the ring is broken)
-		return c21ids(id, r.addrs)
+		return want
 	}
 	out := make([]int, len(r.hash.Nodes))
 	for i, n := range r.hash.Nodes {
@@ -131,6 +148,16 @@ func c21order(id map[string]int, r *ring) []int {
 			v = -1
 		}
 		out[i] = v
+	}
+	got := append([]int{}, out...)
+	sort.Ints(got)
+	if len(got) != len(want) {
+		return want
+	}
+	for i := range got {
+		if got[i] != want[i] {
+			return want
+		}
 	}
 	return out
 }
@@ -146,6 +173,8 @@ func c21build(pool []string, id map[string]int, cf c21conf) (*ring, []c21rec) {
 	} else {
 		filter = sf
 	}
+	rec := &c21recfilter{inner: filter}
+	filter = rec
 	var r *ring
 	var recs []c21rec
 	for i, st := range cf.steps {
@@ -157,7 +186,7 @@ func c21build(pool []string, id map[string]int, cf c21conf) (*ring, []c21rec) {
 		} else {
 			r.Refresh()
 		}
-		recs = append(recs, c21rec{order: c21order(id, r), healthy: c21ids(id, r.healthy)})
+		recs = append(recs, c21rec{order: c21order(id, r, st.members), healthy: c21ids(id, rec.last)})
 	}
 	if cf.forced != nil && r.hash != nil && len(cf.forced) == len(r.hash.Nodes) {
 		// another discovery order of the same membership: permute the ring's own nodes
@@ -172,7 +201,7 @@ func c21build(pool []string, id map[string]int, cf c21conf) (*ring, []c21rec) {
 		r.hash.Nodes = nodes
 		// the model sees a ring that discovered the hosts in this order from the start
 		last := recs[len(recs)-1]
-		recs = []c21rec{{order: c21order(id, r), healthy: last.healthy}}
+		recs = []c21rec{{order: c21order(id, r, cf.steps[len(cf.steps)-1].members), healthy: last.healthy}}
 	}
 	return r, recs
 }
@@ -447,7 +476,7 @@ func c21driver(ctx *hlib.Ctx) {
 	B, nbase, nvar := 32, 3, 4
 	stride := 32
 	if thorough {
-		B, nbase, nvar, stride = 128, 8, 5, 1
+		B, nbase, nvar, stride = 128, 5, 4, 1
 	}
 	off := int(r.U64() % 65536)
 	next := 0
